@@ -942,6 +942,17 @@ class Executor:
             dest_ty = None
             if dest is not None:
                 dest_ty = f.locals.get(dest.local) if not dest.proj else None
+            if re.match(r"^(?:move|copy) _\d+$", callee.strip()):
+                # call through a function pointer held in a local: resolve the function item it holds
+                from mir import parse_operand
+                try:
+                    fv = self.operand(st, frame, parse_operand(callee.strip()), f)
+                    while isinstance(fv, VRef):
+                        fv = self.deref(st, fv)
+                    if isinstance(fv, VOpaque) and fv.name.startswith("const:"):
+                        callee = fv.name[6:]
+                except PathEnd:
+                    pass
             st.calls.append((normalize_callee(callee), argvals, f.name, bb))
             outs = self.call(st, f, bb, callee, argvals, dest_ty)
             for (s2, val) in outs:
